@@ -295,7 +295,11 @@ def run_sim(case):
                  "step_size": 1}}, logging_verbosity=0)
     sim.setup()
     im = sim._randomness._key_mapping
-    out = {"size": len(im), "maps": []}
+    out = {"size": len(im), "maps": [], "draws": {}}
+    if len(im) < case["pop"] + case["births"] * case["steps"]:
+        # fewer slots than simulants: the collision loop could not terminate; report the size, do not run
+        out["skipped"] = "block smaller than the planned population"
+        return out
     sim.initialize_simulants()
     out["maps"].append(ic.dump_map(im)[0])
     for _ in range(case["steps"]):
@@ -354,7 +358,7 @@ class C03(Prop):
                      "Series.reindex, sort_index, MultiIndex .loc on the first level; numpy int64 wrap-around and floor modulo"]
     n_quick = 150
     n_thorough = 2000
-    case_timeout = 15
+    case_timeout = 10
     workers = 4
     rule = ("cases = registration histories on a bare IndexMap (and small real simulations); distinct by case hash; "
             "non-trivial = at least one key was moved by collision resolution or a duplicate batch was rejected")
@@ -439,7 +443,7 @@ class C03(Prop):
 
     def nontrivial(self, case, obs):
         if case["kind"] == "sim":
-            return len(obs["maps"][-1] or []) > 1
+            return bool(obs["maps"]) and len(obs["maps"][-1] or []) > 1
         tg = history_tags(case, obs["batches"])
         return "rehashed" in tg or "update:err:randomness" in tg
 
@@ -450,7 +454,7 @@ class C03(Prop):
 
     def sample_view(self, case, obs):
         if case["kind"] == "sim":
-            return {"case": case, "size": obs["size"], "final_map": obs["maps"][-1]}
+            return {"case": case, "size": obs["size"], "final_map": obs["maps"][-1] if obs["maps"] else None}
         return {"case": {k: v for k, v in case.items() if k != "batches"},
                 "batches": [{"t": b["t"], "sims": b["sims"][:8], "keys": b["keys"][:8], "outcome": r["outcome"],
                              "first_hash": r.get("raw", [])[:8], "map_after": (r["map"] or [])[:12]}
